@@ -346,7 +346,7 @@ package handlers
 //@   property C05
 //@   replay handlers_translation_stream_noanswer
 //@   safety
-//@   requires a != nil && a.proxyService != nil && w != nil && r != nil && trans != nil && pr != nil && pr.requestLogger != nil && pr.stats != nil
+//@   requires a != nil && a.proxyService != nil && w != nil && r != nil && trans != nil && pr != nil && pr.requestLogger != nil && pr.stats != nil && ctx != nil
 //@   requires allocated(ghost(w).hdr)
 //@   modifies gvar pxCalls, gvar pxEndpoints, gvar pxPath, gvar pxBody, gvar pxErr, gvar pxStarted, gvar lastEncoded, ghost started, ghost status, ghost hdr, ghost(w).hdr[all], ghost encW, ghost remaining, ghost backing, ports.RequestStats.RoutingDecision, object pr.stats, gvar unflushed, gvar wBytes, pr.hadError, gvar trStreams
 // C05: unless the translated stream was begun, either an error answer has been written here (no endpoints: 503; the
@@ -362,7 +362,7 @@ package handlers
 //@ func (a *Application) executeTranslationRequest
 //@   property C05 C14
 //@   safety
-//@   requires a != nil && a.proxyService != nil && w != nil && r != nil && r.URL != nil && trans != nil && pr != nil && pr.requestLogger != nil && pr.stats != nil && transformedReq != nil
+//@   requires a != nil && a.proxyService != nil && w != nil && r != nil && r.URL != nil && trans != nil && pr != nil && pr.requestLogger != nil && pr.stats != nil && transformedReq != nil && ctx != nil
 //@   requires !ghost(w).started && len(ghost(w).hdr["Content-Type"]) == 0 && allocated(ghost(w).hdr)
 //@   modifies *
 //@   at call executeTranslatedNonStreamingRequest 1 assert r.URL.Path == stripped(transformedReq.TargetPath, "/olla/") || transformedReq.TargetPath == ""
@@ -381,7 +381,7 @@ package handlers
 //@   property C05
 //@   safety
 //@   requires r != nil && stats != nil
-//@   ensures res1 != nil && res1.URL == r.URL && res1.Body == r.Body
+//@   ensures res0 != nil && res1 != nil && res1.URL == r.URL && res1.Body == r.Body
 //@ func (a *Application) analyzeRequest
 //@   property C05
 //@   trusted
